@@ -151,7 +151,8 @@ class RawValue(Harness):
         return result(f"case{case}", obl, observe={"cls": "ran"}, inputs=inputs)
 
 
-TWICE = ("integer", "boolean", "enumerated", "calibrated", "context-calibrated", "string", "binary", "boolean-of-float")
+TWICE = ("integer", "boolean", "enumerated", "calibrated", "context-calibrated", "string", "binary", "boolean-of-float", "binary-large")
+LARGE = 4100          # bytes: beyond any page-sized fast-path threshold
 ENUM = {0: "OFF", 1: "ON", 255: "ALL"}
 
 
@@ -176,6 +177,8 @@ def build_twice(lib, kind):
         return T.StringParameterType("T", E.StringDataEncoding(fixed_raw_length=8))
     if kind == "binary":
         return T.BinaryParameterType("T", E.BinaryDataEncoding(fixed_size_in_bits=8))
+    if kind == "binary-large":
+        return T.BinaryParameterType("T", E.BinaryDataEncoding(fixed_size_in_bits=8 * LARGE))
     return T.BooleanParameterType("T", E.FloatDataEncoding(32))
 
 
@@ -191,6 +194,8 @@ class Twice(Harness):
         nb = 4 if kind == "boolean-of-float" else 1
         pt = build_twice(lib, kind)
         b1, b2 = bv.fresh_bytes("F1_", nb), bv.fresh_bytes("F2_", nb)
+        if kind == "binary-large":        # symbolic first and last byte, concrete filling
+            b1, b2 = (bv.SymBytes([z3.BitVec(f"G{j}_0", 8)] + [(7 * j + k) % 251 for k in range(LARGE - 2)] + [z3.BitVec(f"G{j}_1", 8)]) for j in (1, 2))
         inputs = {"kind": kind, "same_packet": same_packet, "b1": b1, "b2": b2}
         if same_packet:
             pk = lib.packets.CCSDSPacket(raw_data=bv.SymBytes(b1.items + b2.items))
@@ -207,10 +212,16 @@ class Twice(Harness):
         for n, (o, b) in enumerate(zip(outs, (b1, b2)), 1):
             if isinstance(o, Exception):
                 classes.append(type(o).__name__)
+                if kind != "enumerated":      # only an unlisted enumeration value may fail
+                    obl.append((f"field {n} ({kind}): decoding raises nothing ({type(o).__name__})", False))
                 continue
             classes.append("v")
             rv = getattr(o, "raw_value", None)
-            if kind in ("string", "binary"):
+            if kind == "binary-large":
+                ok = isinstance(rv, bv.SymBytes) and len(rv) == LARGE and all(
+                    z3.is_true(z3.simplify(bv.byte_term(rv.items[k]) == bv.byte_term(b.items[k]))) for k in (0, 1, LARGE // 2, LARGE - 1))
+                obl.append((f"field {n} ({kind}): raw_value is this field's own {LARGE} bytes, as a bytes value", ok))
+            elif kind in ("string", "binary"):
                 ok = isinstance(rv, bv.SymBytes) and len(rv) == 1 and z3.is_true(z3.simplify(bv.byte_term(rv.items[0]) == bv.byte_term(b.items[0])))
                 obl.append((f"field {n} ({kind}): raw_value is this field's own bytes", ok))
             elif kind == "boolean-of-float":
@@ -292,11 +303,24 @@ def concrete(req):
                     outs.append(e)
         for n, (o, b) in enumerate(zip(outs, (b1, b2)), 1):
             if isinstance(o, Exception):
+                if i["kind"] != "enumerated":
+                    bad.append(f"field {n}: decoding raises {type(o).__name__}")
                 continue
-            want = b if i["kind"] in ("string", "binary") else struct.unpack(">f", b)[0] if i["kind"] == "boolean-of-float" else b[0]
+            want = b if i["kind"] in ("string", "binary", "binary-large") else struct.unpack(">f", b)[0] if i["kind"] == "boolean-of-float" else b[0]
             same = o.raw_value == want or (want != want and o.raw_value != o.raw_value)
             if not same:
-                bad.append(f"field {n} (bytes {b.hex()}): raw_value {o.raw_value!r}, expected {want!r}")
+                bad.append(f"field {n} (bytes {b.hex()[:40]}): raw_value {str(o.raw_value)[:60]!r}, expected {str(want)[:60]!r}")
+            if not isinstance(o.raw_value, (int, float, str, bytes)):
+                bad.append(f"field {n}: raw_value is a {type(o.raw_value).__name__}, not an int / float / str / bytes value")
+            else:
+                import copy, pickle
+                for how, fn in (("copy", copy.copy), ("deepcopy", copy.deepcopy), ("pickle", lambda z: pickle.loads(pickle.dumps(z)))):
+                    try:
+                        c2 = fn(o)
+                        if not (c2 == o and c2.raw_value == o.raw_value):
+                            bad.append(f"field {n}: {how} changes the value or its raw value")
+                    except Exception as e:      # noqa: BLE001
+                        bad.append(f"field {n}: {how} raises {type(e).__name__}")
             if i["kind"].startswith("boolean") and bool(o) != bool(want):
                 bad.append(f"field {n} (bytes {b.hex()}): value {o!r}, expected {bool(want)}")
         return {"cls": "ran", "ok": not bad, "bad": bad}
